@@ -233,7 +233,7 @@ func DefaultConfig() *Config {
 		HolePkgs: []string{
 			"go.uber.org/zap", "github.com/pingcap/log", "github.com/prometheus/",
 			"github.com/opentracing/", "go.uber.org/multierr", "github.com/sirupsen/logrus",
-			"github.com/grpc-ecosystem/", "log$", "google.golang.org/grpc",
+			"github.com/grpc-ecosystem/", "log$", "google.golang.org/grpc", "flag$", "github.com/spf13/pflag",
 		},
 		InterpPkgs: []string{
 			"github.com/tikv/pd", "github.com/pingcap/errors", "github.com/pingcap/failpoint",
